@@ -344,6 +344,9 @@ def iter_unordered(
             ranks = ranks_on_same_node(rank=0, max_workers=max_workers, comm=comm)
         else:
             ranks = set(range(max_workers))
+        if len(ranks - {0}) == 0:
+            # the root rank only distributes tasks, at least one other rank must work
+            ranks.add(1)
 
         num_workers = len(ranks)
         iter_kwargs["ranks"] = ranks
